@@ -351,13 +351,25 @@ func rulesC19(w *World, r *Report) {
 						continue
 					}
 					bo, isBo := iff.Cond.(*ssa.BinOp)
-					if !isBo || bo.Op != token.EQL {
+					if !isBo || (bo.Op != token.EQL && bo.Op != token.NEQ) {
 						continue
 					}
-					rem, isRem := bo.X.(*ssa.BinOp)
-					z, isZ := constInt(bo.Y)
-					if isRem && isZ && z == 0 && rem.Op == token.REM {
-						if kk, ok := constInt(rem.Y); ok && kk == k && edgeDominates(b, b.Succs[0], cv.Block()) {
+					// d % k == 0 (either operand order; != 0 guards through the other edge)
+					op, remV, zv, okO := orientCmp(bo, func(v ssa.Value) bool {
+						r2, ok := v.(*ssa.BinOp)
+						return ok && r2.Op == token.REM
+					})
+					if !okO {
+						continue
+					}
+					rem := remV.(*ssa.BinOp)
+					z, isZ := constInt(zv)
+					succ := b.Succs[0]
+					if op == token.NEQ {
+						succ = b.Succs[1]
+					}
+					if isZ && z == 0 {
+						if kk, ok := constInt(rem.Y); ok && kk == k && edgeDominates(b, succ, cv.Block()) {
 							guard = true
 						}
 					}
@@ -715,6 +727,32 @@ func rulesC20(w *World, r *Report) {
 	}
 	es := callArgExprs(w, cc)
 	r.Check(es[len(es)-1] == "nil", "C20.R1", "generate:no-options", w.instrPos(cc), "no option overrides the exclusive creation", "generate passes options to Create ("+es[len(es)-1]+"): the exclusive-creation default can be overridden")
+	// nothing on the way from generate to the file may remove, rename, truncate or re-create a path
+	n20 := 0
+	scope20 := cmdReachableFrom(w, "GenerateCommand")
+	for _, f := range w.modFuncs {
+		if pkgOf(f) != w.Lib && !scope20[f] {
+			continue
+		}
+		for _, c := range callsIn(f) {
+			sc := c.Common().StaticCallee()
+			if sc == nil || sc.Signature.Recv() != nil || pkgOf(sc) == nil {
+				continue
+			}
+			pp := pkgOf(sc).Pkg.Path()
+			if m := fileMutatingFuncs[pp]; m != nil && m[sc.Name()] {
+				n20++
+				key := "path-call:" + pp + "." + sc.Name() + "@" + funcName(f)
+				if pp == "os" && sc.Name() == "OpenFile" && funcName(f) == "whispertool.Whisper.openAndLockFile" {
+					r.OK("C20.R1", key, w.instrPos(c), "the exclusive open itself")
+				} else if pp == "os" && (sc.Name() == "OpenFile" || sc.Name() == "Create") && pkgOf(f) != w.Lib {
+					r.OK("C20.R1", key, w.instrPos(c), "text output file of the command, not the whisper file")
+				} else {
+					r.Violate("C20.R1", key, w.instrPos(c), "on generate's path "+funcName(f)+" calls "+pp+"."+sc.Name()+": an existing file at the destination can be removed, replaced or truncated although generate refuses to overwrite")
+				}
+			}
+		}
+	}
 	r.Rule("C20.R2", "derives-from: Create receives the command's Dest, ArchiveInfoList, AggregationMethod, XFilesFactor", 1)
 	r.Check(strings.Join(es[:4], ",") == "p0.Dest,p0.ArchiveInfoList,p0.AggregationMethod,p0.XFilesFactor", "C20.R2", "generate:layout", w.instrPos(cc), "requested layout", "Create is not called with the command's (Dest, ArchiveInfoList, AggregationMethod, XFilesFactor): "+strings.Join(es[:4], ","))
 
